@@ -178,8 +178,11 @@ func (g *Gen) instrIndexAddr(f *Frame, i *ssa.IndexAddr) {
 		f.locs[i] = g.elemLoc(x.S, idx.S, xt.Elem())
 	case *types.Pointer:
 		arr := types.Unalias(xt.Elem()).Underlying().(*types.Array)
-		if _, isLoc := f.locs[i.X]; isLoc {
-			unsupp("index into array field")
+		if l, isLoc := f.locs[i.X]; isLoc {
+			// &x.arr[i]: element of an array-typed field
+			g.safety(f, fmt.Sprintf("(and (<= 0 %s) (< %s %d))", idx.S, idx.S, arr.Len()), "index", i.Pos())
+			f.locs[i] = l.subIdx(idx.S)
+			return
 		}
 		base := g.val(f, i.X)
 		g.safety(f, fmt.Sprintf("(and (not (= %s 0)) (<= 0 %s) (< %s %d))", base.S, idx.S, idx.S, arr.Len()), "index", i.Pos())
@@ -261,7 +264,7 @@ func (g *Gen) instrUnOp(f *Frame, i *ssa.UnOp) {
 			g.setVal(f, i, fmt.Sprintf("(- (- %s) 1)", x.S))
 		}
 	case token.ARROW:
-		unsupp("channel receive")
+		g.instrRecv(f, i)
 	default:
 		unsupp("unop %s", i.Op)
 	}
@@ -701,13 +704,16 @@ func (g *Gen) instrNext(f *Frame, i *ssa.Next) {
 	x := g.val(f, rng.X)
 	pos := fmt.Sprintf("(select %s %s)", g.get(f.st, "IT"), it.S)
 	if i.IsString {
-		g.d.add("fn:utf8", "(declare-fun utf8_rune (String Int) Int)\n(declare-fun utf8_width (String Int) Int)\n"+
-			"(assert (forall ((s String) (k Int)) (! (and (<= 1 (utf8_width s k)) (<= (utf8_width s k) 4) (=> (< k (str.len s)) (<= (+ k (utf8_width s k)) (str.len s)))) :pattern ((utf8_width s k)))))\n"+
-			"(assert (forall ((s String) (k Int)) (! (and (<= 0 (utf8_rune s k)) (<= (utf8_rune s k) 1114111) (=> (and (<= 0 k) (< k (str.len s)) (< (str.to_code (str.at s k)) 128)) (and (= (utf8_rune s k) (str.to_code (str.at s k))) (= (utf8_width s k) 1)))) :pattern ((utf8_rune s k)))))")
+		g.d.add("fn:utf8", "(declare-fun utf8_rune (String Int) Int)\n(declare-fun utf8_width (String Int) Int)")
 		p := g.defFresh("itpos", "Int", pos)
 		g.assume(f.en, fmt.Sprintf("(and (<= 0 %s) (<= %s (str.len %s)))", p, p, x.S))
 		okn := g.defFresh(f.name(i)+".ok", "Bool", fmt.Sprintf("(< %s (str.len %s))", p, x.S))
 		rn := g.defFresh(f.name(i)+".r", "Int", fmt.Sprintf("(utf8_rune %s %s)", x.S, p))
+		// UTF-8 decoding at this position (ground instances; no quantified string axioms): 1..4 bytes within the
+		// string, a byte below 0x80 is itself, anything else decodes to a rune >= 0x80
+		wd := fmt.Sprintf("(utf8_width %s %s)", x.S, p)
+		g.assume(and(f.en, okn), fmt.Sprintf("(and (<= 1 %[1]s) (<= %[1]s 4) (<= (+ %[2]s %[1]s) (str.len %[3]s)) (<= 0 %[4]s) (<= %[4]s 1114111))", wd, p, x.S, rn))
+		g.assume(and(f.en, okn), fmt.Sprintf("(ite (< (str.to_code (str.at %[1]s %[2]s)) 128) (and (= %[3]s (str.to_code (str.at %[1]s %[2]s))) (= %[4]s 1)) (>= %[3]s 128))", x.S, p, rn, wd))
 		g.set(f.st, "IT", fmt.Sprintf("(store %s %s (ite %s (+ %s (utf8_width %s %s)) %s))", g.get(f.st, "IT"), it.S, okn, p, x.S, p, p))
 		f.tuples[i] = []Term{{okn, "Bool", types.Typ[types.Bool]}, {p, "Int", types.Typ[types.Int]}, {rn, "Int", types.Typ[types.Rune]}}
 		return
@@ -755,4 +761,33 @@ func (g *Gen) instrSend(f *Frame, i *ssa.Send) {
 	g.set(f.st, cnt, fmt.Sprintf("(store %[1]s %[2]s (+ (select %[1]s %[2]s) 1))", g.get(f.st, cnt), ch.S))
 	g.frameWrite(last, ch.S)
 	g.set(f.st, last, fmt.Sprintf("(store %s %s %s)", g.get(f.st, last), ch.S, x.S))
+}
+
+// recvComp: ghost count of values received from a channel; chan_item(ch, k) is the k-th value sent on it
+// (an unbuffered or FIFO channel delivers values in the order they were sent).
+func (g *Gen) recvComp(ct *types.Chan) (cnt, itemFn string) {
+	es := g.d.sortOf(ct.Elem())
+	cnt = "CHR"
+	g.compDecl(cnt, "(Array Int Int)")
+	itemFn = "chan_item$" + compTypeName(ct.Elem())
+	g.d.add("fn:"+itemFn, fmt.Sprintf("(declare-fun %s (Int Int) %s)", itemFn, es))
+	return
+}
+
+// instrRecv: v := <-ch (blocking forever is not modelled; a closed channel yields the zero value with ok false)
+func (g *Gen) instrRecv(f *Frame, i *ssa.UnOp) {
+	ch := g.val(f, i.X)
+	ct := types.Unalias(i.X.Type()).Underlying().(*types.Chan)
+	cnt, itemFn := g.recvComp(ct)
+	k := fmt.Sprintf("(select %s %s)", g.get(f.st, cnt), ch.S)
+	v := g.defFresh(f.name(i)+".recv", g.d.sortOf(ct.Elem()), fmt.Sprintf("(%s %s %s)", itemFn, ch.S, k))
+	g.frameWrite(cnt, ch.S)
+	g.set(f.st, cnt, fmt.Sprintf("(store %[1]s %[2]s (+ (select %[1]s %[2]s) 1))", g.get(f.st, cnt), ch.S))
+	if i.CommaOk {
+		okn := g.fresh(f.name(i) + ".ok")
+		g.declare(okn, "Bool")
+		f.tuples[i] = []Term{{v, g.d.sortOf(ct.Elem()), ct.Elem()}, {okn, "Bool", types.Typ[types.Bool]}}
+		return
+	}
+	g.setVal(f, i, v)
 }
